@@ -9,6 +9,7 @@ import (
 	"sync"
 
 	"github.com/ipld/go-storethehash/store/types"
+	"github.com/ipld/go-storethehash/store/verifhook"
 )
 
 const CIDSizePrefix = 4
@@ -82,6 +83,7 @@ func (cp *FreeList) Flush() (types.Work, error) {
 	cp.blockPool = make([]types.Block, 0, blockPoolSize)
 	cp.outstandingWork = 0
 	cp.poolLk.Unlock()
+	verifhook.At("freelist.flush.swapped")
 
 	// The pool lock is released allowing Put to write to nextPool. The
 	// flushLock is still held, preventing concurrent flushes from changing the
@@ -103,6 +105,7 @@ func (cp *FreeList) Flush() (types.Work, error) {
 	if err != nil {
 		return 0, fmt.Errorf("cannot flush data to freelist file %s: %w", cp.file.Name(), err)
 	}
+	verifhook.At("freelist.flush.written")
 
 	return work, nil
 }
@@ -192,6 +195,7 @@ func (cp *FreeList) ToGC() (string, error) {
 	if err != nil {
 		return "", err
 	}
+	verifhook.At("freelist.togc.flushed")
 
 	cp.flushLock.Lock()
 	defer cp.flushLock.Unlock()
@@ -200,16 +204,19 @@ func (cp *FreeList) ToGC() (string, error) {
 	// acquired.
 	cp.writer.Flush()
 	cp.file.Close()
+	verifhook.At("freelist.togc.closed")
 	err = os.Rename(fileName, workFilePath)
 	if err != nil {
 		return "", err
 	}
+	verifhook.At("freelist.togc.renamed")
 
 	cp.file, err = os.OpenFile(fileName, os.O_RDWR|os.O_APPEND|os.O_CREATE, 0o644)
 	if err != nil {
 		return "", err
 	}
 	cp.writer.Reset(cp.file)
+	verifhook.At("freelist.togc.reopened")
 
 	return workFilePath, nil
 }
